@@ -191,6 +191,9 @@ impl<'r> G<'r> {
         let v = [
             "1", "0", "42", "8'hFF", "'d3", "4'sb1x0z", "16'o7_7", "'0", "'1", "'x", "'z", "1.5", "1e-3", "2.0e+2", "3'b1?0", "'hdead_BEEF",
             "12'hA_b", "32'sd17", "1_000", "'sh7f",
+            // A.8.7: white space may separate size, base and digits; exponents may be upper case; x/z/? digits
+            "5 'D 3", "4 'shf", "32 'h 12ab_f001", "8'h FF", "'h 837FF", "23E10", "29E-2", "1.2E12", "236.123_763_e-12", "4'B1001", "12'o7xz", "16'hz",
+            "'b0?1", "1.30e-2", "0.1", "39e8",
         ];
         let s = *self.r.pick(&v);
         self.num(s);
@@ -226,7 +229,8 @@ impl<'r> G<'r> {
         } else if k < 70 {
             self.literal();
         } else if k < 74 {
-            self.stp(&["\"str\"", "\"a\\n\\\"q\"", "\"\"", "\"x // y /* z\"", "\"é\"", "\"%d end\""]);
+            // incl. a literal that continues over a line break (backslash-newline) — later leaves must still count lines right
+            self.stp(&["\"str\"", "\"a\\n\\\"q\"", "\"\"", "\"x // y /* z\"", "\"é\"", "\"%d end\"", "\"l1\\\nl2\"", "\"two\\\n lines \\\n three\""]);
         } else if k < 80 {
             self.sym("(");
             self.expr(names, d + 1);
